@@ -56,7 +56,9 @@ func runtimeVocab(src string) (map[string]string, string) {
 	roles := map[string]string{} // role -> actual
 	var uVars []string
 	set := func(role, actual string) {
-		if _, dup := roles[role]; !dup {
+		// the first candidate, unless a later one carries the role's own name (a second variable of the
+		// same type added next to it is not the role)
+		if prev, dup := roles[role]; !dup || (actual == role && prev != role) {
 			roles[role] = actual
 		}
 	}
@@ -84,7 +86,8 @@ func runtimeVocab(src string) (map[string]string, string) {
 						set("memoization", id.Name)
 					case t == "string":
 						set("text", id.Name)
-					case t == typeParam:
+					case t == typeParam, t == "int", t == "uint", t == "uint32", t == "uint64", t == "int64", t == "int32":
+						// the cursor (of the offset type) and the token counter (of the offset type or an integer type of its own)
 						uVars = append(uVars, id.Name)
 					}
 				}
@@ -116,7 +119,8 @@ func runtimeVocab(src string) (map[string]string, string) {
 					switch sig {
 					case "pegRule," + typeParam + "->":
 						set("add", id.Name)
-					case "int," + typeParam + "," + typeParam + ",bool->":
+					case "int," + typeParam + "," + typeParam + ",bool->", "int," + typeParam + ",int,bool->", "int," + typeParam + ",uint32,bool->":
+						// (rule, begin, token counter at entry, matched): the counter has the offset type or an integer type of its own
 						set("memoize", id.Name)
 					case "memo[" + typeParam + "]->bool":
 						set("memoizedResult", id.Name)
@@ -238,6 +242,12 @@ func runtimeVocab(src string) (map[string]string, string) {
 	for actual, role := range out {
 		if used[role] {
 			if _, renamedAway := out[role]; !renamedAway {
+				if role == "text" {
+					// the captured text is found by its type alone (a string variable of Init): when the name
+					// text is in use as well, the candidate is a further string variable, not a renamed text
+					delete(out, actual)
+					continue
+				}
 				clash = append(clash, actual+" plays the role of "+role+" but "+role+" names something else")
 			}
 		}
